@@ -3,7 +3,7 @@ Require Import Floats.SpecFloat.
 Require Import List ZArith Bool.
 From Flocq Require Import Core BinarySingleNaN.
 From Dasp Require Import Base.Res Base.Float Sample.Rint Sample.ConvSpec Sample.SampleFmt Sample.SampleOps
-  Frame.Frame Frame.FrameOps.
+  Frame.Frame Frame.FrameOps Frame.ChanIter.
 From DaspGen Require Import SampleTable.
 Import ListNotations.
 Open Scope Z_scope.
@@ -35,3 +35,8 @@ Proof. reflexivity. Qed.
 Example ex_from_samples_short : from_samples 3 ([1; 2], O) = Ok (None, ([], 3%nat)). Proof. reflexivity. Qed.
 Example ex_from_samples_long : from_samples 2 ([1; 2; 3], O) = Ok (Some [1; 2], ([3], 2%nat)). Proof. reflexivity. Qed.
 Example ex_channels : channels_collect 5 (channels [4; 5; 6]) = ([4; 5; 6], mkChannels 3 [4; 5; 6]). Proof. reflexivity. Qed.
+(* iterator scripts: nth on a partly consumed channels() is relative to the current position *)
+Example ex_script : fst (channels_script 4 [SNext; SNext; SNth 0; SLen] [10; 20; 30; 40])
+  = [OOpt (Some 10); OOpt (Some 20); OOpt (Some 30); ONat (Ok 1%nat)]. Proof. reflexivity. Qed.
+Example ex_script_mono : fst (mono_channels_script [SNext; SNth 0; SLen] 7)
+  = [OOpt (Some 7); OOpt None; ONat (Ok 0%nat)]. Proof. reflexivity. Qed.
